@@ -445,3 +445,53 @@ def structured_constructors(ctx):
                     ctx.oblige(f"C08/BlockAutoregressiveNetwork.__init__[{tag}]/post/condition_map_sizes", z3.And(lift(i_) == cd, lift(o_) == lift(bs[0][0]) * dim), p.cond, props, fn=fq, replay=dict(kind="simple", cls="BlockAutoregressiveNetwork", vars={}),
                                note="maps the condition to the width of the first layer's output (where it is added)")
                 ctx.oblige(f"C08/BlockAutoregressiveNetwork.__init__[{tag}]/post/cond_shape_is_cond_dim", lift(o.cond_shape[0]) == cd if isinstance(o.cond_shape, tuple) and len(o.cond_shape) == 1 else z3.BoolVal(False), p.cond, props, fn=fq)
+    # ---- documented rejections: the activation of a BNAF / the transformer of a MAF must be an unconditional shape-() bijection
+    AB = None
+    for depth in (1,):
+        it = ctx.new_interp()
+        it.global_overrides[BQ] = {"block_autoregressive_linear": lambda key, *, n_blocks, block_shape: (type("L", (), dict(out_features=SV(z3.Int("out_features")), n_blocks=n_blocks, block_shape=block_shape))(), "log_jac_fn"),
+                                   "AutoregressiveBisectionInverter": lambda *a, **k: "default_inverter"}
+        it.lib.overrides["jax.random.split"] = lambda key, num=2: [f"{key}/{j}" for j in range(num if isinstance(num, int) else 2)]
+        cls = it.repo_class(f"{BQ}.BlockAutoregressiveNetwork")
+        abij = it.repo_class("flowjax.bijections.bijection.AbstractBijection")
+        for aname, ashape, acond, valid in (("scalar_unconditional", (), None, True), ("vector", (SV(z3.Int("k")),), None, False), ("conditional", (), ("c",), False), ("vector_conditional", (SV(z3.Int("k")),), ("c",), False)):
+            act = Obj(abij, shape=ashape, cond_shape=acond)
+            paths = it.explore(lambda act=act: cls("key", dim=SV(dim), depth=depth, block_dim=SV(bd), activation=act))
+            fq = f"{BQ}.BlockAutoregressiveNetwork.__init__"
+            for n_, p in enumerate(paths):
+                if p.outcome == "raise":
+                    ctx.oblige(f"C13/BlockAutoregressiveNetwork.__init__[activation={aname}]/post/raises_only_for_invalid_activation#{n_}", (not valid) and p.value.exc == "ValueError", [], props, kind="struct", fn=fq, replay=dict(kind="simple", cls="BlockAutoregressiveNetwork", vars={}))
+                else:
+                    ctx.oblige(f"C13/BlockAutoregressiveNetwork.__init__[activation={aname}]/post/accepts_only_unconditional_scalar_activation#{n_}", valid, [], props, kind="struct", fn=fq, replay=dict(kind="simple", cls="BlockAutoregressiveNetwork", vars={}))
+    MQ2 = "flowjax.bijections.masked_autoregressive"
+    it = ctx.new_interp()
+    it.global_overrides[MQ2] = {"get_ravelled_pytree_constructor": lambda t, *a, **k: ("constructor", SV(npar)), "masked_autoregressive_mlp": lambda *a, **k: "mlp"}
+    it.lib.overrides["jax.numpy.arange"] = lambda n_, *a, **k: ("arange", n_)
+    it.lib.overrides["jax.numpy.repeat"] = lambda *a, **k: "repeat"
+    it.lib.overrides["jax.numpy.hstack"] = lambda *a, **k: "hstack"
+    it.lib.overrides["jax.numpy.ones"] = lambda *a, **k: 1
+
+    class _Ranks:
+        def __mod__(self, o):
+            return self
+
+        def __sub__(self, o):
+            return self
+
+        def __neg__(self):
+            return self
+
+    it.lib.overrides["jax.numpy.arange"] = lambda *a, **k: _Ranks()
+    it.lib.overrides["jax.numpy.ones"] = lambda *a, **k: _Ranks()
+    cls = it.repo_class(f"{MQ2}.MaskedAutoregressive")
+    for tname, tshape, tcond, valid in (("scalar_unconditional", (), None, True), ("vector", (SV(z3.Int("k")),), None, False), ("conditional", (), ("c",), False)):
+        class Tr2:
+            shape = tshape
+            cond_shape = tcond
+        paths = it.explore(lambda: cls("key", transformer=Tr2(), dim=SV(dim), nn_width=SV(z3.Int("w")), nn_depth=1))
+        fq = f"{MQ2}.MaskedAutoregressive.__init__"
+        for n_, p in enumerate(paths):
+            if p.outcome == "raise":
+                ctx.oblige(f"C13/MaskedAutoregressive.__init__[transformer={tname}]/post/raises_only_for_invalid_transformer#{n_}", (not valid) and p.value.exc == "ValueError", [], props, kind="struct", fn=fq, replay=dict(kind="simple", cls="MaskedAutoregressive", vars={}))
+            else:
+                ctx.oblige(f"C13/MaskedAutoregressive.__init__[transformer={tname}]/post/accepts_only_unconditional_scalar_transformer#{n_}", valid, [], props, kind="struct", fn=fq, replay=dict(kind="simple", cls="MaskedAutoregressive", vars={}))
